@@ -165,6 +165,10 @@ func (d *intDecoder) decodeByte(buf []byte, cursor int64) ([]byte, int64, error)
 				cursor++
 			}
 			num := buf[start:cursor]
+			if len(num) < 2 && char(b, start) == '-' {
+				// a minus sign without digits, as in the stream decoder
+				return nil, 0, errors.ErrUnexpectedEndOfJSON("number(integer)", cursor)
+			}
 			return num, cursor, nil
 		case 'n':
 			if err := validateNull(buf, cursor); err != nil {
